@@ -61,15 +61,105 @@ def translate_is_signed(fn):
             f"Definition py_is_signed (type_name : string) : bool :=\n  py_startswith type_name {cstr(v.args[0].args[0].value)}.\n")
 
 
+# ---------------------------------------------------------------- initialize_can_data, map_messages_to_devices
+def translate_map_messages(fn):
+    U = ast.unparse
+    args = [a.arg for a in fn.args.args]
+    body = strip_doc(fn.body)
+    if len(args) != 1 or len(body) != 3 or fn.decorator_list:
+        raise Untranslatable("map_messages_to_devices")
+    a, loop, ret = body
+    if not (isinstance(a, ast.Assign) and len(a.targets) == 1 and isinstance(a.targets[0], ast.Name) and U(a.value) == "{}"):
+        raise Untranslatable(f"map_messages_to_devices: {U(a)}")
+    d = a.targets[0].id
+    if not (isinstance(loop, ast.For) and not loop.orelse and isinstance(loop.target, ast.Name) and U(loop.iter) == args[0] and len(loop.body) == 1):
+        raise Untranslatable(f"map_messages_to_devices: {U(loop)}")
+    m = loop.target.id
+    inner = loop.body[0]
+    if not (isinstance(inner, ast.For) and not inner.orelse and isinstance(inner.target, ast.Name) and U(inner.iter) == f"{m}.senders" and len(inner.body) == 1
+            and U(inner.body[0]) == f"{d}.setdefault({inner.target.id}, []).append({m})"):
+        raise Untranslatable(f"map_messages_to_devices: {U(inner)}")
+    if U(ret) != f"return {d}":
+        raise Untranslatable(f"map_messages_to_devices: {U(ret)}")
+    s = inner.target.id
+    return (f"Definition py_map_messages_to_devices {{S : Type}} ({args[0]} : list (cmsg S)) : list (string * list (cmsg S)) :=\n"
+            f"  let {d} := [] in\n"
+            f"  fold_left (fun {d} {m} => fold_left (fun {d} {s} => setdefault_append {d} {s} {m}) (c_senders {m}) {d}) {args[0]} {d}.\n")
+
+
+def translate_initialize(fn):
+    U = ast.unparse
+    if [a.arg for a in fn.args.args] != ["fcp"] or fn.decorator_list:
+        raise Untranslatable("signature of initialize_can_data")
+    body = strip_doc(fn.body)
+    if len(body) != 7:
+        raise Untranslatable("initialize_can_data: statements")
+    s_en, s_msg, s_dev, s_enc, s_efor, s_for, s_ret = body
+    if [U(s_en), U(s_msg), U(s_dev)] != ["enums = []", "messages = []", "devices = []"]:
+        raise Untranslatable("initialize_can_data: the three lists")
+    if U(s_enc) != "encoder = make_encoder('packed', fcp, PackedEncoderContext().with_unroll_arrays(True))":
+        raise Untranslatable(f"initialize_can_data: {U(s_enc)}")
+    # for enum in fcp.enums: values = {...}; enums.append(Enum(...)); devices.append(CanNode('global'))
+    if not (isinstance(s_efor, ast.For) and not s_efor.orelse and U(s_efor.iter) == "fcp.enums" and isinstance(s_efor.target, ast.Name) and len(s_efor.body) == 3):
+        raise Untranslatable(f"initialize_can_data: {U(s_efor)}")
+    e = s_efor.target.id
+    want = [f"values = {{v.name: v.value for v in {e}.enumeration}}", f"enums.append(Enum(name={e}.name, values=values))", "devices.append(CanNode('global'))"]
+    if [U(x) for x in s_efor.body] != want:
+        raise Untranslatable(f"initialize_can_data: enum loop {[U(x) for x in s_efor.body]}")
+    if not (isinstance(s_for, ast.For) and not s_for.orelse and isinstance(s_for.target, ast.Name) and U(s_for.iter) == "fcp.get_matching_impls('can')"):
+        raise Untranslatable(f"initialize_can_data: {U(s_for)}")
+    x = s_for.target.id
+    want = [
+        f"encoding = encoder.generate({x})",
+        "signals, dlc = create_can_signals(encoding)",
+        f"frame_id = {x}.fields.get('id')",
+        "if frame_id is None:\n    Err('No id field found in extension').unwrap()",
+        f"device_name = {x}.fields.get('device', 'global')",
+        f"period = {x}.fields.get('period', -1)",
+        "if not any((node.name == device_name for node in devices)):\n    devices.append(CanNode(device_name))",
+        f"messages.append(CanMessage(frame_id=frame_id, name_pascal={x}.name, dlc=dlc, signals=signals, senders=[device_name], period=period))",
+    ]
+    got = [U(st) for st in s_for.body]
+    if got != want:
+        diff = next((g for g, w in zip(got, want) if g != w), got[len(want):] or want[len(got):])
+        raise Untranslatable(f"initialize_can_data loop: {diff}")
+    if U(s_ret) != "return (enums, messages, devices)":
+        raise Untranslatable(f"initialize_can_data: {U(s_ret)}")
+    return ("(* initialize_can_data(fcp): the messages (in order of the CAN bindings) and the device names; create_can_signals is a parameter *)\n"
+            "Definition py_initialize_can_data {S : Type} (create_can_signals : list piece -> pyres (S * Z)) (fcp : schema) (impls : list simpl)\n"
+            "  : dres (list (cmsg S) * list string) :=\n"
+            "  let messages := [] in\n"
+            "  let devices := [] in\n"
+            "  let encoder := encoder_init in\n"
+            f"  let devices := fold_left (fun devices {e} => devices ++ [\"global\"%string]) (enums fcp) devices in\n"
+            f"  dbind (dfor (filter (fun i => String.eqb (iprotocol i) \"can\"%string) impls) (messages, devices, encoder) (fun st {x} =>\n"
+            "      let '(messages, devices, encoder) := st in\n"
+            f"      match generate true fcp encoder {x} with (encoder, None) => DRaise | (encoder, Some encoding) =>\n"
+            "      dbind (dlift (create_can_signals encoding)) (fun sd => let '(signals, dlc) := sd in\n"
+            f"      let frame_id := impl_int {x} \"id\"%string in\n"
+            "      match frame_id with None => DRaise | Some frame_id =>\n"
+            f"      let device_name := impl_str_default {x} \"device\"%string \"global\"%string in\n"
+            f"      let period := impl_int_default {x} \"period\"%string (-1)%Z in\n"
+            "      let devices := if negb (existsb (fun node => String.eqb node device_name) devices) then devices ++ [device_name] else devices in\n"
+            f"      let messages := messages ++ [{{| c_frame_id := frame_id; c_name := iname {x}; c_dlc := dlc; c_signals := signals; c_senders := [device_name]; c_period := period |}}] in\n"
+            "      DOk (messages, devices, encoder) end) end))\n"
+            "  (fun st => let '(messages, devices, encoder) := st in DOk (messages, devices)).\n")
+
+
 def translate_repo(repo):
     tree = ast.parse(open(os.path.join(repo, "plugins", "fcp_can_c", "fcp_can_c", "can_c_writer.py")).read())
-    return "\n".join(["(* GENERATED by harness/py2coq_canc.py from plugins/fcp_can_c/fcp_can_c/can_c_writer.py (ceil_to_power_of_2, is_signed) on every run; do not edit. *)",
+    return "\n".join(["(* GENERATED by harness/py2coq_canc.py from plugins/fcp_can_c/fcp_can_c/can_c_writer.py (ceil_to_power_of_2, is_signed, map_messages_to_devices, initialize_can_data) on every run; do not edit. *)",
                       "From Coq Require Import String ZArith List Bool.",
-                      "From FcpV Require Import CanC.CWriterLib.", "",
+                      "From FcpV Require Import Schema.Types Layout.Packed Py.BufferLib Dbc.DbcModel Dbc.DbcLib CanC.CWriterLib.",
+                      "Import ListNotations.", "",
                       translate_ceil(find_def(tree.body, "ceil_to_power_of_2")),
-                      translate_is_signed(find_def(tree.body, "is_signed"))])
+                      translate_is_signed(find_def(tree.body, "is_signed")),
+                      translate_map_messages(find_def(tree.body, "map_messages_to_devices")),
+                      translate_initialize(find_def(tree.body, "initialize_can_data"))])
 
 
 if __name__ == "__main__":
     import sys
     print(translate_repo(sys.argv[1]))
+
+
